@@ -13,6 +13,31 @@ func init() {
 var backendsAll = []string{"bbolt", "badger-mem"}
 
 // streamHistories: random histories on every backend; three-way comparison impl / model / spec.
+// bigIndexHistory: an index with several hundred entries is created, dropped and re-created
+// (drops must leave no residue whatever the number of entries the cursor walks over).
+func bigIndexHistory(g *Gen, n int) []J {
+	h := NewHistGen(g, 1, 1)
+	lines := []J{opLine("createCollection", J{"coll": hx("big")}), opLine("createIndex", J{"coll": hx("big"), "field": hx("x")}),
+		opLine("createIndex", J{"coll": hx("big"), "field": hx("xy")})}
+	for start := 0; start < n; start += 100 {
+		docs := []interface{}{}
+		for j := start; j < n && j < start+100; j++ {
+			d := h.Doc(h.newId())
+			d["x"] = int64(j % 17)
+			d["xy"] = int64(j)
+			docs = append(docs, encDoc(d))
+		}
+		lines = append(lines, opLine("insert", J{"coll": hx("big"), "docs": docs}))
+	}
+	lines = append(lines, J{"k": "dump"}, opLine("dropIndex", J{"coll": hx("big"), "field": hx("x")}), J{"k": "dump"},
+		opLine("findAll", J{"q": J{"coll": hx("big"), "crit": J{"cmp": []interface{}{"lt", hx("xy"), J{"lit": encValue(int64(5))}}}}}),
+		opLine("createIndex", J{"coll": hx("big"), "field": hx("x")}), J{"k": "dump"},
+		opLine("count", J{"q": J{"coll": hx("big"), "crit": J{"cmp": []interface{}{"eq", hx("x"), J{"lit": encValue(int64(3))}}}}}),
+		opLine("dropCollection", J{"coll": hx("big")}), J{"k": "dump"},
+		opLine("createCollection", J{"coll": hx("big")}), opLine("findAll", J{"q": J{"coll": hx("big")}}), J{"k": "dump"})
+	return lines
+}
+
 func streamHistories(c *Ctx, cfg HistCfg, what string) {
 	c.Rule = "random histories (" + what + ") over 2-3 collections with prefix-related names, documents with mixed-type/absent/nil/nested fields drawn from a per-history value pool, " +
 		"index create/drop interleaved; every operation's result compared impl vs Lean model vs Lean spec; non-trivial = distinct (operation, canonical result) where the result is not an error and, for queries, at least one document matched and one did not"
@@ -22,9 +47,26 @@ func streamHistories(c *Ctx, cfg HistCfg, what string) {
 	dm := Domain{IntsWithin2p53: true, NoNegTimes: true}
 	for _, be := range backendsAll {
 		im := NewImpl(be, c.Scratch)
+		if cfg.Dumps {
+			lines := bigIndexHistory(NewGen(c.Rng, dm), c.N(350, 2500))
+			o := runHistory(dr, im, lines, HistOpts{})
+			recordHistory(c, lines, &o, be)
+			if o.Index >= 0 {
+				reportHistoryProblem(c, dr, im, lines, &o, be, HistOpts{}, what)
+				im.Destroy()
+				return
+			}
+		}
 		for hN := 0; hN < nHist; hN++ {
 			g := NewGen(c.Rng, dm)
+			if !cfg.Indexes && hN%4 == 3 {
+				// integers of any magnitude, no floats (and no index: bigints are order-exact only among integers)
+				g = NewGen(c.Rng, Domain{NoFloats: true})
+			}
 			h := NewHistGen(g, 2+g.pick(2), 3)
+			if cfg.Indexes {
+				h.Focus = []string{indexable[g.pick(len(indexable))], indexable[g.pick(len(indexable))]}
+			}
 			lines := h.History(cfg)
 			o := runHistory(dr, im, lines, HistOpts{})
 			recordHistory(c, lines, &o, be)
